@@ -389,9 +389,17 @@ theorem C02_slice_sound (n : Nat) (a b c : Option Int) :
     (c.getD 1 ≠ 0 → ∃ sel, sliceIndices n a b c = .ok sel ∧ sel.Nodup ∧ ∀ x ∈ sel, x < n) :=
   sliceIndices_sound n a b c
 
-/-! ## The remaining views as functions of the map -/
+/-! ## The remaining views as functions of the map
 
-/-- `as_array()` / `as_set()` / `as_graph()` edges are the graph of the map: a row `(i, j, t)` is present iff the map
+In the model every view is a *value* computed from the state at call time (`getBonds s i`, `getAllBonds s`,
+`adjacencyMatrix s`, `asGraph s`, … are pure functions of `s`), so a view handed out earlier cannot change later and
+editing it cannot change the list.  For the real objects this "no aliasing" part of "every view agrees with the
+mapping" is not a consequence of the theorems: it is tied by the oracle (`_alias_problems` / `_ctor_alias_problems` in
+`harness/props/c02.py`: snapshot every returned array/container before the next in-place operation, overwrite returned
+objects and constructor arguments, re-check the list). -/
+
+/-- `as_array()` / `as_set()` / `as_graph()` edges are the graph of the map (as values of the state at call time; that the
+real `as_array()` is a copy and not the internal array is checked by the oracle's aliasing stream): a row `(i, j, t)` is present iff the map
 sends `(i, j)` to `t`; rows are sorted, in range, and no row occurs twice. -/
 theorem C02_views_as_array (s : BL) (hc : Canon s) :
     (∀ i j t, (i, j, t) ∈ s.bonds ↔ lookup s.bonds i j = some t) ∧
